@@ -508,13 +508,15 @@ func main() {
 			}
 		}
 		teardown()
-		for i, n := range vorder.Loops {
-			r.Add(fmt.Sprintf("controlled_map_loops_with_%d_keys", i), n)
-		}
 		// phase L: node-local state (local.go). It changes process-global parameters (term length, the
 		// harness clock), so it runs after the first phase's world is gone.
 		if r.Exhaustive && os.Getenv("C01_SKIP_LOCAL") == "" {
 			runLocalShard(i, n, r)
+		} else {
+			r.NotExhaustive("phase L (node-local state) was not run: the first phase hit the deadline, or C01_SKIP_LOCAL is set")
+		}
+		for i, n := range vorder.Loops {
+			r.Add(fmt.Sprintf("controlled_map_loops_with_%d_keys", i), n)
 		}
 		core.WorkerDone(r)
 	}
